@@ -20,6 +20,8 @@ type StructOpts struct {
 	TopKind  string // force the top-level source constructor: "", basic, named, ptr, slice, array, map, struct, nstruct
 	Hostile  bool   // hostile identifier names
 	Monitors []string
+	HostilePkgs bool
+	NConverters int
 	NValues  int
 	Seed     int64
 }
@@ -365,99 +367,158 @@ func (g *sgen) identicalUnder(t *Type, seen map[*Decl]bool) bool {
 	return true
 }
 
+var hostilePkgNames = []string{"source", "target", "context", "c", "i", "key", "value", "err", "fmt", "errors", "strings", "generated", "x", "types", "unnamed", "j", "source2", "pint"}
+
 // Structural builds one case of the structural corpus.
 func Structural(r *rand.Rand, name string, o StructOpts) *Case {
 	c := &Case{Name: name, Root: "vcase/" + name}
 	g := &sgen{r: r, o: o, memo: map[*Decl]*Decl{}, open: map[*Decl]bool{}, names: &namePool{r: r, hostile: o.Hostile, used: map[string]bool{}}}
 	var convPkg *Package
+	pkgName := func(def string) string {
+		if !o.HostilePkgs {
+			return def
+		}
+		for k := 0; k < 10; k++ {
+			n := hostilePkgNames[r.Intn(len(hostilePkgNames))]
+			if !g.names.used["pkg:"+n] {
+				g.names.used["pkg:"+n] = true
+				c.Feature("tag", appendTag(c.Features["tag"], "pkg:"+n))
+				return n
+			}
+		}
+		return def
+	}
 	if o.SamePkg {
-		p := &Package{Path: "p", Name: "p"}
+		n := pkgName("p")
+		p := &Package{Path: n, Name: n}
 		g.src, g.tgt, convPkg = p, p, p
 		c.Pkgs = []*Package{p}
 	} else {
-		g.src = &Package{Path: "src", Name: "src"}
-		g.tgt = &Package{Path: "tgt", Name: "tgt"}
-		convPkg = &Package{Path: "conv", Name: "conv"}
+		sn, tn, cn := pkgName("src"), pkgName("tgt"), pkgName("conv")
+		g.src = &Package{Path: sn, Name: sn}
+		g.tgt = &Package{Path: tn, Name: tn}
+		convPkg = &Package{Path: cn, Name: cn}
 		c.Pkgs = []*Package{g.src, g.tgt, convPkg}
 	}
-	cv := &Converter{Pkg: convPkg, File: "conv.go", Name: "Converter", Format: o.Format}
 	if o.Depth == 0 {
 		o.Depth = 3
 	}
 	g.o = o
-	flags := vref.Flags{SkipCopy: o.SkipCopy, UseZero: o.UseZero}
-	if o.SkipCopy {
-		cv.Lines = append(cv.Lines, "skipCopySameType")
-	}
-	if o.UseZero {
-		cv.Lines = append(cv.Lines, "useZeroValueOnPointerInconsistency")
-	}
-	switch {
-	case o.SamePkg && o.Format == "variables":
-		cv.OutPkgPath, cv.OutPkgName = "p", "p"
-	case o.SamePkg:
-		cv.Lines = append(cv.Lines, "output:file ./zz_generated.go")
-		cv.OutPkgPath, cv.OutPkgName = "p", "p"
-	case o.Format == "variables":
-		cv.OutPkgPath, cv.OutPkgName = "conv", "conv"
-	default:
-		cv.OutPkgPath, cv.OutPkgName = "conv/generated", "generated"
-	}
-	cv.ImplName = "ConverterImpl"
-	n := o.NMethods
-	if n == 0 {
-		n = 1
+	nc := o.NConverters
+	if nc < 1 {
+		nc = 1
 	}
 	type pair struct{ s, t string }
 	seenPairs := map[pair]bool{}
-	for i := 0; i < n; i++ {
-		var s, t *Type
-		if i > 0 && len(g.decls) > 0 && r.Intn(2) == 0 {
-			// declared method for a nested named pair of an earlier method
-			d := g.decls[r.Intn(len(g.decls))]
-			s = Named(d)
-			if td, ok := g.memo[d]; ok {
-				t = Named(td)
+	for k := 0; k < nc; k++ {
+		cvName := "Converter"
+		if k > 0 {
+			cvName = fmt.Sprintf("Converter%d", k+1)
+		}
+		cv := &Converter{Pkg: convPkg, File: "conv.go", Name: cvName, Format: o.Format}
+		if k > 0 && o.Format == "variables" && r.Intn(2) == 0 {
+			cv.File = fmt.Sprintf("conv%d.go", k+1)
+			c.Feature("tag", appendTag(c.Features["tag"], "multi-file-pkg"))
+		}
+		flags := vref.Flags{SkipCopy: o.SkipCopy, UseZero: o.UseZero}
+		if o.SkipCopy {
+			cv.Lines = append(cv.Lines, "skipCopySameType")
+		}
+		if o.UseZero {
+			cv.Lines = append(cv.Lines, "useZeroValueOnPointerInconsistency")
+		}
+		switch {
+		case o.SamePkg && o.Format == "variables":
+			cv.OutPkgPath, cv.OutPkgName = convPkg.Path, convPkg.Name
+		case o.SamePkg:
+			cv.Lines = append(cv.Lines, "output:file ./zz_generated.go")
+			cv.OutPkgPath, cv.OutPkgName = convPkg.Path, convPkg.Name
+		case o.Format == "variables":
+			cv.OutPkgPath, cv.OutPkgName = convPkg.Path, convPkg.Name
+		default:
+			cv.OutPkgPath, cv.OutPkgName = convPkg.Path+"/generated", "generated"
+			if k > 0 && r.Intn(2) == 0 {
+				cv.Lines = append(cv.Lines, fmt.Sprintf("output:file ./generated/second%d.go", k))
+				c.Feature("tag", appendTag(c.Features["tag"], "multi-file-pkg"))
+			}
+		}
+		cv.ImplName = cvName + "Impl"
+		n := o.NMethods
+		if n == 0 {
+			n = 1
+		}
+		if k > 0 {
+			// separate converters must not see each other's declared methods: fresh memo for new types,
+			// but reuse of earlier source decls stays possible (shared helper names across files)
+			if r.Intn(2) == 0 {
+				g.memo = map[*Decl]*Decl{}
+			}
+			seenPairs = map[pair]bool{}
+		}
+		for i := 0; i < n; i++ {
+			var s, t *Type
+			if (i > 0 || k > 0) && len(g.decls) > 0 && r.Intn(2) == 0 {
+				d := g.decls[r.Intn(len(g.decls))]
+				s = Named(d)
+				if td, ok := g.memo[d]; ok {
+					t = Named(td)
+				} else {
+					t = g.derive(s, false, 0)
+				}
 			} else {
+				kind := ""
+				if i == 0 && k == 0 {
+					kind = o.TopKind
+				}
+				s = g.srcType(o.Depth, kind)
 				t = g.derive(s, false, 0)
 			}
-		} else {
-			kind := ""
-			if i == 0 {
-				kind = o.TopKind
+			alias := func(p *Package) string { return p.Name }
+			key := pair{s.Go(nil, alias), t.Go(nil, alias)}
+			if seenPairs[key] {
+				continue
 			}
-			s = g.srcType(o.Depth, kind)
-			t = g.derive(s, false, 0)
+			seenPairs[key] = true
+			mname := fmt.Sprintf("M%d", i)
+			if k > 0 {
+				mname = fmt.Sprintf("K%dM%d", k, i)
+			}
+			m := &Method{
+				Name:   mname,
+				Params: []Param{{Name: "source", T: s, Role: "source"}},
+				Result: t,
+				Spec:   &vref.MethodSpec{Name: mname, Roles: []string{"source"}, Flags: flags},
+			}
+			cv.Methods = append(cv.Methods, m)
 		}
-		alias := func(p *Package) string { return p.Name }
-		key := pair{s.Go(nil, alias), t.Go(nil, alias)}
-		if seenPairs[key] {
+		if len(cv.Methods) == 0 {
 			continue
 		}
-		seenPairs[key] = true
-		m := &Method{
-			Name:   fmt.Sprintf("M%d", i),
-			Params: []Param{{Name: "source", T: s, Role: "source"}},
-			Result: t,
-			Spec:   &vref.MethodSpec{Name: fmt.Sprintf("M%d", i), Roles: []string{"source"}, Flags: flags},
+		mon := o.Monitors
+		if mon == nil {
+			mon = []string{"value", "intact"}
 		}
-		cv.Methods = append(cv.Methods, m)
+		nv := o.NValues
+		if nv == 0 {
+			nv = 40
+		}
+		cv.Spec = &vref.Spec{Seed: o.Seed, NValues: nv, Monitors: mon, Conv: flags}
+		c.Convs = append(c.Convs, cv)
 	}
-	mon := o.Monitors
-	if mon == nil {
-		mon = []string{"value", "intact"}
-	}
-	nv := o.NValues
-	if nv == 0 {
-		nv = 40
-	}
-	cv.Spec = &vref.Spec{Seed: o.Seed, NValues: nv, Monitors: mon, Conv: flags}
-	c.Convs = []*Converter{cv}
 	c.Patterns = []string{"./" + convPkg.Path}
 	c.Feature("format", o.Format)
 	c.Feature("samepkg", fmt.Sprint(o.SamePkg))
 	c.Feature("skipcopy", fmt.Sprint(o.SkipCopy))
 	c.Feature("usezero", fmt.Sprint(o.UseZero))
 	c.Feature("top", o.TopKind)
+	c.Feature("converters", fmt.Sprint(len(c.Convs)))
+	c.Feature("hostilepkgs", fmt.Sprint(o.HostilePkgs))
 	return c
+}
+
+func appendTag(cur, t string) string {
+	if cur == "" {
+		return t
+	}
+	return cur + "," + t
 }
